@@ -258,12 +258,14 @@ Definition cs_remove (x : cs_index) (b : block) : res cs_index :=
         | Some (ph, pv) =>
           if bytes_eqb ph (b_prev b) then Ok (ph, pv)
           else
-            (* if (!m_db->Read(index_util::DBHashKey(expected_block_hash), read_out)) { LogError("previous block header not found"); return false; }
-               read_out is a std::pair<uint256, DBVal>, but the value under a hash key is a bare DBVal
-               (CopyHeightIndexToHashIndex: batch.Write(DBHashKey(value.first), value.second)): 192 bytes where the
-               pair needs 224.  The deserialisation throws, CDBWrapper::Read catches and returns false: this
-               fallback fails whether or not the entry exists (finding C21-revert-fallback). *)
-            Err ENoPrevEntry
+            (* if (!m_db->Read(index_util::DBHashKey(expected_block_hash), read_out.second)) { LogError("previous block header not found"); return false; }
+               "Entries of the hash index hold the bare DBVal (see index_util::CopyHeightIndexToHashIndex)"
+               (since /repo commit b3a3ee2; before it the value was read into the whole std::pair<uint256, DBVal> and the
+               read always failed: cs_remove_prefix_b3a3ee2 below) *)
+            match dbs_read dbs' (b_prev b) with
+            | Some pv' => Ok (ph, pv')
+            | None => Err ENoPrevEntry
+            end
         end
       else Ok (repeat 0%N 32, dbval0) in
     match read_out with
@@ -273,6 +275,32 @@ Definition cs_remove (x : cs_index) (b : block) : res cs_index :=
       (* m_muhash.Finalize(out); Assert(read_out.second.muhash == out); *)
       if negb (bytes_eqb (v_muhash pv) (mh_finalize m)) then Err EAssertMuhash
       (* "Apply the other values from the DB to the member variables" (the digest itself is not a member) *)
+      else Ok {| cs_mh := mh_finalize_state m; cs_v := set_muhash pv (v_muhash (cs_v x)); cs_cur := b_prev b;
+                 cs_dbh := cs_dbh x; cs_dbs := dbs'; cs_db_muhash := cs_db_muhash x |}
+    end
+  end.
+
+(* CustomRemove as it was BEFORE /repo commit b3a3ee2 (finding C21-revert-fallback, repaired): the fallback
+   m_db->Read(DBHashKey(expected_block_hash), read_out) deserialised the bare DBVal stored under a hash key (192 bytes) into
+   a std::pair<uint256, DBVal> (224 bytes); the stream underflow was caught by CDBWrapper::Read, which returned false whether
+   or not the entry existed.  Kept only for the witness theorem about the old code (proofs/IndexRefuted.v). *)
+Definition cs_remove_prefix_b3a3ee2 (x : cs_index) (b : block) : res cs_index :=
+  match dbh_read (cs_dbh x) (b_height b) with
+  | None => Err ENoHeightEntry
+  | Some (hh, hv) =>
+    let dbs' := (hh, hv) :: cs_dbs x in
+    let read_out : res (bytes * dbval) :=
+      if 0 <? b_height b then
+        match dbh_read (cs_dbh x) (b_height b - 1) with
+        | None => Err ENoPrevEntry
+        | Some (ph, pv) => if bytes_eqb ph (b_prev b) then Ok (ph, pv) else Err ENoPrevEntry
+        end
+      else Ok (repeat 0%N 32, dbval0) in
+    match read_out with
+    | Err e => Err e
+    | Ok (_, pv) =>
+      let m := fold_left (revert_tx (is_bip30_unspendable (b_hash b) (b_height b)) (b_height b)) (b_txs b) (cs_mh x) in
+      if negb (bytes_eqb (v_muhash pv) (mh_finalize m)) then Err EAssertMuhash
       else Ok {| cs_mh := mh_finalize_state m; cs_v := set_muhash pv (v_muhash (cs_v x)); cs_cur := b_prev b;
                  cs_dbh := cs_dbh x; cs_dbs := dbs'; cs_db_muhash := cs_db_muhash x |}
     end
